@@ -213,7 +213,13 @@ namespace link_layer {
 
                     // short l2cap PDU that is not fragmented
                     if ( l2cap_size + l2cap_header_size == body_size )
+                    {
+                        // a new SDU starts: drop what might be left over from an incomplete one
+                        receive_buffer_used_ = 0;
+                        receive_size_        = 0;
+
                         return pdu;
+                    }
 
                     if ( l2cap_size <= MTUSize )
                     {
@@ -298,13 +304,15 @@ namespace link_layer {
     template < class BufferedRadio, class ReceiveCallbacks, std::size_t MTUSize >
     void ll_l2cap_sdu_buffer< BufferedRadio, ReceiveCallbacks, MTUSize >::free_ll_l2cap_received()
     {
-        if (receive_buffer_used_)
+        // was it a completely reassembled SDU that next_ll_l2cap_received() handed out?
+        if ( receive_buffer_used_ != 0 && receive_size_ == 0 )
         {
             receive_buffer_used_ = 0;
-            receive_size_ = 0;
         }
         else
         {
+            // a PDU of the radio was handed out (LL control PDUs may arrive between the fragments of an SDU);
+            // a reassembly that is under way goes on
             this->free_received();
         }
     }
